@@ -9,6 +9,7 @@
    findings ([known_class] 1 and 2); on everything else they are equal. *)
 From SC Require Import Base.Prelude Wrap.Stream Wrap.GrpcSpec Wrap.C13Judge Wrap.Copy Wrap.StreamProofs.
 From SC Require Import Wrap.Sites Gen.WrapSites Wrap.SitesProofs.
+From SC Require Import Wrap.GrpcFacts Gen.GrpcFacts Wrap.GrpcFactsProofs.
 
 (* Same client transcript (messages in order, terminal outcome with status code and message,
    header and trailer metadata, results of sends) and same handler-side transcript, for every
@@ -148,6 +149,42 @@ Theorem C13_judge_sound : forall sc,
 Proof. exact judge_sound. Qed.
 Print Assumptions C13_judge_sound.
 
+(* ---- the reference model: what it assumes about a real connection, by name ---- *)
+
+(* Tie of GrpcSpec to grpc-go (not a proof about grpc-go: an obligation over a generated table plus an
+   observation on every run).  For every named assumption of GrpcSpec (GrpcFacts.grpc_assumed) the table of
+   directed scenarios (Gen/GrpcFacts.v, regenerated from harness/c13/facts.go on every run) has an entry;
+   for every entry GrpcSpec computes exactly the transcript written down by hand as what a real connection
+   gives; every entry lies in the fragment [wf].  Each entry is run against a grpc.Server on bufconn on
+   every run (case KFact: observed = expected). *)
+Theorem C13_grpc_fact_table_matches_spec :
+  forallb (fun f => transcript_eqb (grpc_run (gf_scn f)) (gf_expect f)) grpc_fact_table = true /\
+  forallb (fun f => wf (gf_scn f)) grpc_fact_table = true /\
+  forallb (has_fact grpc_fact_table) grpc_assumed = true /\
+  map gf_id grpc_fact_table = map Z.of_nat (seq 1 (List.length grpc_fact_table)).
+Proof.
+  split; [exact fact_table_matches_spec | split; [exact fact_table_in_fragment | exact fact_table_complete]].
+Qed.
+Print Assumptions C13_grpc_fact_table_matches_spec.
+
+(* The general form of the assumptions about the header block and about the end of the client's context, for
+   every state of the reference model (the remaining ones are the lemmas of the same names in
+   Wrap/GrpcFactsProofs.v): once the block has left SetHeader with metadata fails and changes nothing; once the
+   call is over for the client no handler action changes what the client sees; the final Header() of a stream
+   client then shows the block that had left, the trailer is empty. *)
+Theorem C13_grpc_assumptions_general :
+  (forall sh g h, g_over g = false -> g_sent g = true -> md_empty h = false ->
+     g_step sh g (SetH h) = (g, ([], [SSetH false]))) /\
+  (forall sh g st, g_over g = true ->
+     match st with SetH _ | SendH _ | SetT _ | S2C _ | RecvEOF => True | _ => False end ->
+     fst (g_step sh g st) = g /\ fst (snd (g_step sh g st)) = []) /\
+  (forall sh g rt, g_over g = true -> is_invoke sh = false ->
+     fst (snd (g_step sh g (Ret rt))) = [CHdr (canon_md (if g_sent g then g_chdr g else [])); CTrl []]).
+Proof.
+  split; [exact setheader_after_block_fails_and_is_dropped |
+  split; [exact handler_actions_after_the_end_reach_nobody | exact headers_received_before_the_end_stay_visible]].
+Qed.
+
 (* ---- the code as it was: each repair is needed ---- *)
 
 Definition differs (fx : fixes) (sc : scenario) : Prop :=
@@ -248,7 +285,7 @@ Example C13_nonvacuous_after_context_end :
   wf sc = true /\ no_known sc = true /\
   wrap_run fx_now sc =
   ([CSent true; CEnd ODeadline; CHdr []; CTrl []],
-   [SEntered (-1); SIncoming []; SGot 4; SSetH true; SDone true]).
+   [SEntered (-1); SIncoming []; SGot 4; SSetH true; SDone true; SRecvErr]).
 Proof. repeat split; reflexivity. Qed.
 
 (* a call made on a context whose deadline has already passed *)
